@@ -15,3 +15,5 @@ impl Bdd {
         }
     }
 }
+// Term::no_inf_inconsistency as a spec function (its contract in the bdd unit)
+pub open spec fn no_inf_incons(a: Term, b: Term) -> bool { ((((a.0 <= 1) == (b.0 <= 1)) && ((a.0 == 1) == (b.0 == 1))) || a.0 > 1) }
